@@ -219,6 +219,12 @@ impl Prop for C02 {
                 sink(Case::with("self-cancelled", format!("3 {a} to {b}"), serde_json::json!({"want": 3})));
             }
         }
+        // powers that differ by a multiple of 2^16 (or 2^8) are different powers
+        for (a, b) in [("m^70000", "m^4464"), ("m^40000", "m^-25536"), ("s^65537", "s"), ("m^65536*s", "s"), ("m^32768", "m^-32768"), ("kg^300", "kg^44"), ("s^-129", "s^127"), ("m^65536", "m^65536"), ("s^-40000*m", "m*s^-40000"), ("A^70000", "A^70000")] {
+            for q in [format!("1 {a} + 2 {b}"), format!("1 {a} - 2 {b}"), format!("1 {a} to {b}"), format!("2 {b} + 1 {a}")] {
+                sink(Case::with("wide-power", q, serde_json::json!({"a": a, "b": b})));
+            }
+        }
         for q in &s {
             sink(Case::with("plain-left", format!("2 + 1 {q}"), serde_json::json!({"q": q})));
             sink(Case::with("plain-right", format!("1 {q} + 2"), serde_json::json!({"q": q})));
@@ -253,6 +259,16 @@ impl Prop for C02 {
             Ok(r) => r,
             Err(why) => return fw::fail(format!("results:{}", case.fam), format!("{q}: {why}")),
         };
+        if case.fam == "wide-power" {
+            let (a, b) = (case.data["a"].as_str().unwrap(), case.data["b"].as_str().unwrap());
+            let (Some(ma), Some(mb)) = (units::unit_expr(a), units::unit_expr(b)) else { return Verdict::DontCare("no reference reading") };
+            return match (&got, ma.dim == mb.dim) {
+                (Res::Err { .. }, false) => fw::pass(true, 1),
+                (Res::Ok { .. }, true) => fw::pass(true, 2),
+                (Res::Ok { .. }, false) => fw::fail("wide-power:accepted", format!("{q}: [{a}] and [{b}] are different powers, but the tool returned {}", got.short())),
+                (Res::Err { msg, .. }, true) => fw::fail("wide-power:refused", format!("{q}: the same powers on both sides, refused: {msg}")),
+            };
+        }
         if case.fam == "self-cancelled" {
             let want = BigRational::from_integer(BigInt::from(case.data["want"].as_i64().unwrap()));
             return match &got {
